@@ -33,7 +33,7 @@ def main():
     out = {}
     for stack in (8, 64):
         out[stack] = {}
-        for entry in ("tokens", "pl", "rq", "compile"):   # fmt: exponential time long before the stack matters (finding H2)
+        for entry in ("tokens", "pl", "fmt", "rq", "compile"):   # fmt is measurable since c8b3817 removed the exponential layout retries (finding H2)
             out[stack][entry] = {}
             for fam in NEST:
                 if fam.startswith("open-") or fam in ("quotes-open", "at", "dots", "close-paren"):
